@@ -2122,3 +2122,120 @@ Proof.
   - intros d Hd. rewrite PI. apply NP. rewrite <- (dialog_of_keeps NQ m m' K) by in_names. exact Hd.
   - eexists. rewrite O, R2, RR, EO. split; reflexivity.
 Qed.
+
+(* the same from any state in which the binding holds (whatever created it: the INVITE rule,
+   the SUBSCRIBE rule) *)
+Theorem C04_sticky_pinned : forall c li lc t0 h2 tr br src sport datar st2 stf outss mr restr addr g d ex dst,
+  nth_opt (c_listens c) li = Some lc -> first_transport lc = Some t0 ->
+  pinned li d addr g ex st2 -> gen_ok g -> addr_dest addr = Some dst ->
+  run all_fixed c st2 (h2 ++ [(tr, br, EvUdp li src sport datar)]) = Ok (stf, outss) ->
+  Forall (fun '(now, b, ev) => now < ex /\ ev_ok li d addr b ev) h2 ->
+  parse_message datar = Ok (mr, restr) -> dialog_of mr = Ok d -> tr < ex ->
+  addressed_to_service (mk_env all_fixed c (item_rs_of true) li lc tr br) (udp_from lc) mr ->
+  exists b, last outss [] = if fits_datagram b then [(dst, b)] else [].
+Proof.
+  intros c li lc t0 h2 tr br src sport datar st2 stf outss mr restr addr g d ex dst NL FT Q2 G AD E F EPr Dr Lr AS.
+  rewrite run_app in E.
+  destruct (run all_fixed c st2 h2) as [[st3 o3]| |] eqn:E3; cbn [rbind run] in E; try discriminate.
+  destruct (proxy_step all_fixed c tr br st3 (EvUdp li src sport datar)) as [[st4 outs]| |] eqn:E4; cbn [rbind] in E; try discriminate.
+  injection E as _ <-.
+  assert (Q3 : pinned li d addr g ex st3) by (eapply C04_preserved_history; eassumption).
+  destruct (sticky_event c li lc t0 tr br st3 st4 outs src sport datar mr restr d addr g ex dst) as (b & ->); try assumption.
+  exists b. rewrite last_last. reflexivity.
+Qed.
+
+(* the SUBSCRIBE-response rule as an event *)
+Lemma bind_subscribe_event fx c li lc now br st st' outs peer port data m rest p host hport tr g d :
+  nth_opt (c_listens c) li = Some lc -> nth_p (st_proxies st) li = Some p ->
+  proxy_step fx c now br st (EvUdp li peer port data) = Ok (st', outs) ->
+  parse_message data = Ok (m, rest) -> is_request m = false ->
+  relay_hop m = Ok (host, hport, tr) ->
+  alookup (host ++ ":"%char :: itoa hport) (ps_backends p) = Some g -> ps_has_rr p = true ->
+  method_of m = Ok (s2b "SUBSCRIBE") -> dialog_of m = Ok d ->
+  0 <= pins_lifetime (ps_pins p) (get_expires m 0) ->
+  pinned li d (host ++ ":"%char :: itoa hport) g (now + pins_lifetime (ps_pins p) (get_expires m 0)) st'.
+Proof.
+  intros NL NP E EP R RH A HR Hm Hd L. cbn [proxy_step] in E. rewrite NL, EP in E.
+  unfold run_ctx in E. rewrite NP in E.
+  set (e := mk_env fx c (item_rs_of (fx_wiring fx)) li lc now br) in *.
+  set (x0 := {| x_learned := st_learned st; x_p := p; x_conns := st_conns st; x_world := st_world st; x_outs := [] |}) in *.
+  destruct (C04_bind_subscribe e peer port (udp_from lc) (e_item_rs e) None m x0 host hport tr g d R RH A Hm Hd L)
+    as (x' & E' & PA & _ & ST).
+  unfold udp_from in E'. rewrite E' in E. injection E as <- _.
+  exists (x_p x'). split; [cbn [st_proxies]; eapply nth_set_same; exact NP|].
+  destruct ST as (B & _ & H & _). split; [exact PA|]. split; [rewrite B; exact A|rewrite H; exact HR].
+Qed.
+
+(* ---- the key hypothesis: transaction keys differ from the dialog key.  Sufficient syntactic
+   condition: the method has no '-', the branch carries the RFC 3261 cookie, and what follows
+   the first '-' of d does not start with the cookie ---- *)
+Definition cookie : bytes := s2b "z9hG4bK".
+Lemma has_prefix_app p r : has_prefix p (p ++ r) = true.
+Proof. induction p as [|x p IH]; cbn; [reflexivity|]. rewrite Ascii.eqb_refl, IH. reflexivity. Qed.
+Theorem key_neq_dialog : forall meth branch d,
+  ~ In "-"%char meth -> has_prefix cookie branch = true ->
+  match index_byte "-"%char d with
+  | Some i => has_prefix cookie (skipn (S i) d) = false
+  | None => True
+  end ->
+  meth ++ "-"%char :: branch <> d.
+Proof.
+  intros meth branch d NI HP H E. subst d.
+  rewrite (index_byte_app_notin "-"%char meth branch NI), skipn_S_length_app in H. congruence.
+Qed.
+Example key_neq_dialog_ex :
+  s2b "INVITE" ++ "-"%char :: s2b "z9hG4bKpx3" <> s2b "c-1@ua-a-1-sip:alice@ua.example.org-b-2-sip:bob@sip.example.com".
+Proof. apply key_neq_dialog; [intros H; cbn in H; repeat (destruct H as [H|H]; [discriminate H|]); exact H|reflexivity|reflexivity]. Qed.
+
+(* ---- executable versions of the hypotheses (for concrete histories and for judges) ---- *)
+Definition msg_ok_b (d branch : bytes) (m : message) : bool :=
+  if is_request m then
+    match snd (s_get_cseq m) with Ok c => negb (beq (cs_method c ++ "-"%char :: branch) d) | _ => true end &&
+    match dialog_of m with
+    | Ok d' => if beq d' d then negb (notify_terminated (req_method m) m) else true
+    | _ => true
+    end
+  else
+    match tid_of m with Ok t => negb (beq t d) | _ => true end &&
+    match dialog_of m with
+    | Ok d' => if beq d' d then match method_of m with Ok meth => negb (binding_method meth) | _ => true end else true
+    | _ => true
+    end.
+Lemma msg_ok_b_sound d branch m : msg_ok_b d branch m = true -> msg_ok d branch m.
+Proof.
+  unfold msg_ok_b, msg_ok. destruct (is_request m); intros H; apply andb_true_iff in H; destruct H as [H1 H2]; split.
+  - intros c Hc. rewrite Hc in H1. apply negb_true_iff in H1. apply beq_neq. exact H1.
+  - intros Hd. rewrite Hd, beq_refl in H2. apply negb_true_iff in H2. exact H2.
+  - intros t Ht. rewrite Ht in H1. apply negb_true_iff in H1. apply beq_neq. exact H1.
+  - intros Hd meth Hm. rewrite Hd, beq_refl, Hm in H2. apply negb_true_iff in H2. exact H2.
+Qed.
+Definition ev_ok_b (li : nat) (d addr branch : bytes) (ev : event) : bool :=
+  match ev with
+  | EvUdp li' _ _ data =>
+      negb (Nat.eqb li' li) || match parse_message data with Ok (m, _) => msg_ok_b d branch m | _ => true end
+  | EvTcpData _ data => forallb (msg_ok_b d branch) (chunk_msgs (S (List.length data)) data)
+  | EvBackendAdd li' a => negb (Nat.eqb li' li) || negb (beq a addr)
+  | EvBackendRemove li' a => negb (Nat.eqb li' li) || negb (beq a addr)
+  | EvTcpAccept _ _ _ => true
+  | EvTcpClose _ => true
+  end.
+Lemma ev_ok_b_sound li d addr branch ev : ev_ok_b li d addr branch ev = true -> ev_ok li d addr branch ev.
+Proof.
+  destruct ev as [li' src sport data|li' src sport|cid data|cid|li' a|li' a]; cbn [ev_ok_b ev_ok]; intros H; try exact I.
+  - intros -> m rest EP. rewrite Nat.eqb_refl, EP in H. apply msg_ok_b_sound. exact H.
+  - apply Forall_forall. intros m Hm. apply msg_ok_b_sound. rewrite forallb_forall in H. apply H. exact Hm.
+  - intros -> E. rewrite Nat.eqb_refl in H. cbn in H. apply negb_true_iff in H. apply beq_neq in H. contradiction.
+  - intros -> E. rewrite Nat.eqb_refl in H. cbn in H. apply negb_true_iff in H. apply beq_neq in H. contradiction.
+Qed.
+Definition addressed_to_service_b (e : env) (from : stransport) (m : message) : bool :=
+  is_request m && match hvals (s2b "Route") (m_headers m) with [] => true | _ => false end &&
+  match static_hop e m with Ok _ => false | _ => true end &&
+  is_my_message (new_my_name (c_name (e_cfg e))) from m.
+Lemma addressed_to_service_b_sound e from m : addressed_to_service_b e from m = true -> addressed_to_service e from m.
+Proof.
+  unfold addressed_to_service_b, addressed_to_service. intros H.
+  apply andb_true_iff in H. destruct H as [H H4]. apply andb_true_iff in H. destruct H as [H H3].
+  apply andb_true_iff in H. destruct H as [H1 H2]. repeat split; try assumption.
+  - destruct (hvals _ _); [reflexivity|discriminate].
+  - intros v Hv. rewrite Hv in H3. discriminate.
+Qed.
